@@ -41,8 +41,9 @@ def candidates(name: str, D: int, form: str) -> List[Any]:
     pts = lambda: T(2, 5, D) - 1.5  # noqa: E731
     mat = lambda: T(2, D, D + 1)  # noqa: E731
     grid_obj = Grid(size=tuple(reversed(sp)))
+    labels_ = torch.randint(0, 3, (2, 1, *sp), generator=g)
     by = {
-        "data": [img(2), img(1), flow()], "input": [img(2), img(1)], "image": [img(1)], "tensor": [img(2), T(4, D), mat()], "x": [img(1), T(5, D), T(5)],
+        "data": [img(2), img(1), flow()], "input": [img(2), img(1)], "image": [img(1)], "tensor": [img(2), T(4, D), mat(), labels_], "x": [img(1), T(5, D), T(5)],
         "a": [mat(), T(2, D, D), T(5, D), img(1)], "b": [mat(), T(2, D, D), T(5, D), img(1)], "y": [img(1), T(5, D), T(5)], "arr": [T(4, 3), [1.0, 2.0]],
         "flow": [flow()], "u": [flow()], "v": [flow()], "grid": [grid_obj.coords().unsqueeze(0).expand(2, *sp, D).clone(), grid_obj],
         "points": [pts()], "coords": [pts(), grid_obj.coords().unsqueeze(0)], "vectors": [pts()], "transform": [mat(), flow()], "transforms": [mat()],
@@ -53,7 +54,7 @@ def candidates(name: str, D: int, form: str) -> List[Any]:
         "pos": [0], "min": [0.0], "scales": [T(2, D)], "offset": [T(2, D)], "degree": [3], "sdim": [0], "levels": [1], "margin": [1],
         "in_spacing": [1.0], "out_spacing": [0.5], "mask": [(img(1) > 1.2).float()], "weight": [img(1)], "mean": [T(2, 4)], "logvar": [T(2, 4)],
         "logits": [img(2) - 1.5], "forward": [flow(), mat()], "inverse": [flow(), mat()], "loss": [img(1)], "name": ["loss"], "loss_fn": [lambda a, b, reduction="mean": (a - b).abs()],
-        "sigma": [1.0], "spacing": [1.0], "labels": [torch.randint(0, 3, (2, *sp), generator=g)], "other": [img(1)], "kernels": [[T(3)] * D],
+        "sigma": [1.0], "spacing": [1.0], "labels": [torch.randint(0, 3, (2, *sp), generator=g), labels_], "other": [img(1)], "kernels": [[T(3)] * D],
     }
     return by.get(name, [])
 
@@ -109,13 +110,31 @@ def option_sweep(name, fn, sig, base_args, D, allowed) -> List[dict]:
         plans += [{"min": 0.0, "max": 1.0}, {"min": -0.5, "max": 0.5, **({"mode": "center"} if "mode" in names else {})}, {"min": 1.0, "max": 2.0}]
         if "mode" in names:
             plans += [{"mode": "zscore", "min": 1.0, "max": 2.0}, {"mode": "unit", "min": 0.0, "max": 1.0}]
+    # options given as TENSORS the caller keeps (per-axis sigma / spacing / scale ...), alone and with a subset of the dimensions
+    tens = {"sigma": torch.tensor([0.8, 1.2, 1.0][:D]), "spacing": torch.tensor([0.5, 2.0, 1.5][:D]), "scale": torch.tensor(0.5), "size": torch.tensor([8.0, 9.0, 7.0][:D]),
+            "offset": torch.tensor([0.5, -1.0, 0.25][:D]), "weight": None, "min": torch.tensor(0.25), "max": torch.tensor(1.5), "stride": torch.tensor([2] * D),
+            "kernel_size": torch.tensor([3] * D), "margin": torch.tensor([1] * D), "num": torch.tensor([1] * D), "shape": torch.tensor([8, 9, 7][:D])}
+    for nm in sorted(names & set(tens)):
+        if tens[nm] is not None:
+            plans.append({nm: tens[nm]})
+            plans.append({nm: tens[nm].double()})
+            if "dims" in names:
+                for dd in ((0,), (D - 1,)):
+                    plans.append({nm: tens[nm], "dims": dd})
+    if "dims" in names:
+        plans += [{"dims": (0,)}, {"dims": (D - 1,)}]
+    if "ignore_index" in names:
+        plans += [{"ignore_index": 1}, {"ignore_index": 0}]
     bools = [p for p in opts if isinstance(p.default, bool) and p.name not in ("inplace",)]
     for p, q in itertools.combinations(bools, 2):
         plans.append({p.name: not p.default, q.name: not q.default})
     evs = []
     for kw in plans:
         args = {k: (v.detach().clone().requires_grad_(v.requires_grad) if isinstance(v, Tensor) else v) for k, v in base_args.items()}
-        snap = snapshot(args)
+        kw = {k: (v.detach().clone() if isinstance(v, Tensor) else v) for k, v in kw.items()}
+        allargs = {**args, **kw}
+        form_s = "options " + " ".join(repr(kw).split())[:70]
+        snap = snapshot(allargs)
         try:
             fn(**args, **kw)
         except RuntimeError as ex:
@@ -124,7 +143,7 @@ def option_sweep(name, fn, sig, base_args, D, allowed) -> List[dict]:
             continue
         except Exception:
             continue
-        evs.append(dict(call=name, D=D, form="options " + repr(kw)[:60], written=changed(args, snap), allowed=allowed))
+        evs.append(dict(call=name, D=D, form=form_s, written=changed(allargs, snap), allowed=allowed))
     return evs
 
 
